@@ -22,6 +22,8 @@ Definition M (s : String.string) : str := bs_of_string s.
 Definition mkdiag (p : pos) (s : String.string) : diag := {| d_file := p_file p; d_line := p_line p; d_fmt := M s |}.
 
 Definition line_incr (p : pos) : pos := {| p_file := p_file p; p_line := p_line p + 1 |}.
+Definition count_nl (s : str) : N := N.of_nat (length (filter (fun c => Byte.eqb c x0a) s)).
+Definition add_lines (p : pos) (n : N) : pos := {| p_file := p_file p; p_line := p_line p + n |}.
 
 (* ---------- environment ---------- *)
 
@@ -213,11 +215,11 @@ Definition run_action (e : envt) (a : action) (yytext : str) (s : lexst) (p : po
       Return TStr (Some v) (set_sc (set_q s (qputc q x00)) INITIAL) p []
   | A_env_dq =>
       match env_lookup e yytext with
-      | Some v => Continue (set_q s (qputs q v)) p
-      | None => Continue s p
+      | Some v => Continue (set_q s (qputs q v)) (add_lines p (count_nl yytext))
+      | None => Continue s (add_lines p (count_nl yytext))
       end
   | A_env_initial =>
-      Return TStr (Some (match env_lookup e yytext with Some v => v | None => [] end)) s p []
+      Return TStr (Some (match env_lookup e yytext with Some v => v | None => [] end)) s (add_lines p (count_nl yytext)) []
   | A_putc_nl_line => Continue (set_q s (qputc q x0a)) (line_incr p)
   | A_octal =>
       let v := digits_val 8 (skipn 1 yytext) in
@@ -256,37 +258,47 @@ Definition run_eof (a : option eof_action) (s : lexst) (p : pos) : outcome * nat
 Record lexres := { r_tok : tok; r_val : option str; r_st : lexst; r_pos : pos;
                    r_diags : list diag; r_closed : nat; r_fuel_out : bool }.
 
+(* one iteration of the scanning loop *)
+Inductive lstep :=
+| LCont (s : lexst) (p : pos) (k : nat)                                   (* keep scanning; k FILEs closed *)
+| LRet (t : tok) (v : option str) (s : lexst) (p : pos) (d : list diag) (k : nat).
+
+Definition lex_step (e : envt) (s : lexst) (p : pos) : lstep :=
+  match l_bufs s with
+  | [] => LRet TEof None s p [] 0
+  | (id, inp) :: others =>
+    match munch (active_res (l_sc s)) inp 0 None with
+    | Some (i, n) =>
+        let yytext := firstn n inp in
+        let s1 := set_bufs s ((id, skipn n inp) :: others) in
+        match nth_error (active_rules (l_sc s)) i with
+        | None => LRet TErr None s1 p [] 0
+        | Some r =>
+          match run_action e (r_act r) yytext s1 p with
+          | Continue s2 p2 => LCont s2 p2 0
+          | Return t v s2 p2 d => LRet t v s2 p2 d 0
+          end
+        end
+    | None =>
+        match inp with
+        | c :: rest => LCont (add_echo (set_bufs s ((id, rest) :: others)) c) p 0   (* flex default rule: ECHO one byte *)
+        | [] =>
+            match run_eof (eof_action_of (l_sc s)) s p with
+            | (Continue s2 p2, k) => LCont s2 p2 k
+            | (Return t v s2 p2 d, k) => LRet t v s2 p2 d k
+            end
+        end
+    end
+  end.
+
 Fixpoint yylex (e : envt) (fuel : nat) (s : lexst) (p : pos) (closed : nat) : lexres :=
   match fuel with
   | O => {| r_tok := TErr; r_val := None; r_st := s; r_pos := p; r_diags := []; r_closed := closed; r_fuel_out := true |}
   | S fuel' =>
-    match l_bufs s with
-    | [] => {| r_tok := TEof; r_val := None; r_st := s; r_pos := p; r_diags := []; r_closed := closed; r_fuel_out := false |}
-    | (id, inp) :: others =>
-      match munch (active_res (l_sc s)) inp 0 None with
-      | Some (i, n) =>
-          let yytext := firstn n inp in
-          let s1 := set_bufs s ((id, skipn n inp) :: others) in
-          match nth_error (active_rules (l_sc s)) i with
-          | None => {| r_tok := TErr; r_val := None; r_st := s1; r_pos := p; r_diags := []; r_closed := closed; r_fuel_out := false |}
-          | Some r =>
-            match run_action e (r_act r) yytext s1 p with
-            | Continue s2 p2 => yylex e fuel' s2 p2 closed
-            | Return t v s2 p2 d => {| r_tok := t; r_val := v; r_st := s2; r_pos := p2; r_diags := d; r_closed := closed; r_fuel_out := false |}
-            end
-          end
-      | None =>
-          match inp with
-          | c :: rest =>      (* flex default rule: ECHO one byte *)
-              yylex e fuel' (add_echo (set_bufs s ((id, rest) :: others)) c) p closed
-          | [] =>
-              match run_eof (eof_action_of (l_sc s)) s p with
-              | (Continue s2 p2, k) => yylex e fuel' s2 p2 (closed + k)
-              | (Return t v s2 p2 d, k) =>
-                  {| r_tok := t; r_val := v; r_st := s2; r_pos := p2; r_diags := d; r_closed := closed + k; r_fuel_out := false |}
-              end
-          end
-      end
+    match lex_step e s p with
+    | LCont s2 p2 k => yylex e fuel' s2 p2 (k + closed)
+    | LRet t v s2 p2 d k =>
+        {| r_tok := t; r_val := v; r_st := s2; r_pos := p2; r_diags := d; r_closed := k + closed; r_fuel_out := false |}
     end
   end.
 
